@@ -62,9 +62,9 @@ def settle(pid, alpha, cands, report, findings, kinds):
             report.unreproduced.append({"sig": sig, "text": vs[0].get("text"), "what": vs[0]["what"], "replay": str(detail)[:200]})
             continue
         what = f"[{sig}] {good['what']} -- input {good['text']!r} ({len(vs)} path classes)"
-        kf = findings.match(sig)
+        kf = findings.match(sig, good["text"])
         if kf:
-            report.known_hits[sig] = f"{kf['what']} [e.g. {good['text'].strip()!r}]"
+            report.known_hits[kf.get('id', sig)] = f"{kf['what']} [e.g. {good['text'].strip()!r}]"
             continue
         report.violations.append({"sig": sig, "what": what, "replay": checklib.write_replay(pid, what, replay_body(good), interpreter="python3-vt")})
 
@@ -75,8 +75,9 @@ def replay_body(v):
         "sys.path.insert(0, '/verif')\n"
         "from symx import toklex, diffharness as D\n"
         f"toks = {toks!r}\n"
-        "alpha = toklex.full_alphabet()\n"
-        "kind, repro, text, detail = D.replay_tree(alpha, [tuple(t) for t in toks])\n"
+        "toks = [tuple(t) for t in toks]\n"
+        "alpha = toklex.Alphabet(sorted(set(toks)))\n"
+        "kind, repro, text, detail = D.replay_tree(alpha, toks)\n"
         "print('input :', repr(text)); print('result:', kind, detail)\n"
         "sys.exit(1 if repro else 0)\n"
     )
